@@ -336,12 +336,15 @@ func fromPayload(role string, p proto.Message) (msg, code string, ok bool) {
 // encoders) of version v under the type keys the library reports for v's
 // types. Without encoders the library's default encoding applies and the
 // decoders rebuild the type from the message (the code is not transferred).
+// A proto-native leaf type gets neither: it is its own payload.
 func registerCodecs(v *version, enc bool) {
 	lk, wk := errors.GetTypeKey(v.leafProto), errors.GetTypeKey(v.wrapProto)
 	if !enc {
-		errors.RegisterLeafDecoder(lk, func(_ context.Context, msg string, _ []string, _ proto.Message) error {
-			return v.newLeaf(msg, "")
-		})
+		if !v.protoNative {
+			errors.RegisterLeafDecoder(lk, func(_ context.Context, msg string, _ []string, _ proto.Message) error {
+				return v.newLeaf(msg, "")
+			})
+		}
 		errors.RegisterWrapperDecoder(wk, func(_ context.Context, cause error, prefix string, _ []string, _ proto.Message) error {
 			return v.newWrap(prefix, "", cause)
 		})
@@ -352,15 +355,17 @@ func registerCodecs(v *version, enc bool) {
 		}
 		return
 	}
-	errors.RegisterLeafEncoder(lk, func(_ context.Context, err error) (string, []string, proto.Message) {
-		return err.Error(), nil, payloadFor("leaf", err)
-	})
-	errors.RegisterLeafDecoder(lk, func(_ context.Context, _ string, _ []string, p proto.Message) error {
-		if m, c, ok := fromPayload("leaf", p); ok {
-			return v.newLeaf(m, c)
-		}
-		return nil
-	})
+	if !v.protoNative {
+		errors.RegisterLeafEncoder(lk, func(_ context.Context, err error) (string, []string, proto.Message) {
+			return err.Error(), nil, payloadFor("leaf", err)
+		})
+		errors.RegisterLeafDecoder(lk, func(_ context.Context, _ string, _ []string, p proto.Message) error {
+			if m, c, ok := fromPayload("leaf", p); ok {
+				return v.newLeaf(m, c)
+			}
+			return nil
+		})
+	}
 	errors.RegisterWrapperEncoder(wk, func(_ context.Context, err error) (string, []string, proto.Message) {
 		m, _ := err.(fielder).fields()
 		return m, nil, payloadFor("wrap", err)
